@@ -65,7 +65,7 @@ func treeStructural(in ssa.Instruction) (bool, string) {
 		cal := staticCallee(&x.Call)
 		name := ""
 		if cal != nil {
-			name = cal.Name()
+			name = fname(cal)
 		} else if bi, ok := x.Call.Value.(*ssa.Builtin); ok {
 			name = bi.Name()
 		}
